@@ -637,6 +637,15 @@ func GenC12(seed uint64) *Scenario {
 			ops = append(ops, op)
 			continue
 		}
+		// a request for a live session whose body is valid JSON with one wrongly typed member:
+		// whatever it is answered, a 4xx answer means the client still owns an open session
+		if s.live && g.r.Chance(80) {
+			kind := []string{"update", "release"}[g.r.Intn(2)]
+			op := g.usageOp(kind, s, kind == "release", false, true, false)
+			op.Corrupt = []string{"isn-string", "ts-number", "muu-object"}[g.r.Intn(3)]
+			ops = append(ops, op)
+			continue
+		}
 		switch {
 		case !s.created:
 			uri := "http://smf.sim/notify/" + s.supi
